@@ -168,10 +168,12 @@ let process_history (hdr : line) (blocks : block list) (verbose : int) (do_full 
         (match b.op with
          | Some l when l.tag = "J" -> r.joins <- r.joins + 1
          | Some l when l.tag = "L" -> r.leaves <- r.leaves + 1
+         | Some l when l.tag = "A" -> (r.leaves <- r.leaves + 1; bump "switches_away")
+         | Some l when l.tag = "B" -> (r.joins <- r.joins + 1; bump "switches_in")
          | _ -> ());
         (* retention across joins and departures (the session is alive throughout a history) *)
         (match b.op, !prev with
-         | Some l, Some p when (l.tag = "J" || l.tag = "L") ->
+         | Some l, Some p when (l.tag = "J" || l.tag = "L" || l.tag = "A" || l.tag = "B") ->
              let np = List.length p.g_planes in
              if replaced && np > 0 then
                pv 6 idx (Printf.sprintf "%s %d: the session's grid was replaced; %d stored plane(s) lost" l.tag l.f.(0) np)
@@ -434,7 +436,7 @@ let () =
         let flush () = blocks := { op = !cop; lines = List.rev !acc } :: !blocks; acc := [] in
         List.iter (fun l ->
           match l.tag with
-          | "I" | "J" | "L" -> flush (); cop := Some l
+          | "I" | "J" | "L" | "A" | "B" -> flush (); cop := Some l
           | _ -> acc := l :: !acc) ls;
         flush ();
         let blocks = List.rev !blocks in
